@@ -322,9 +322,9 @@ func filePrefix(prefixes ...string) func(tableRow) bool {
 var successScope = map[string][]string{
 	"C01": {"vm/", "verifier/", "chain/"},
 	"C02": {"vm/", "verifier/", "chain/", "common/db/", "consensus/", "protocol/chain_bridge.go"},
-	"C03": {"vm/vm.go", "vm/supervisor.go", "vm/plasma.go", "vm/vm_context/", "verifier/", "chain/"},
+	"C03": {"vm/vm.go", "vm/supervisor.go", "vm/plasma.go", "vm/vm_context/", "verifier/", "chain/", "wallet/crypto.go"},
 	"C04": {"vm/vm.go", "vm/supervisor.go", "vm/vm_context/", "verifier/", "chain/"},
-	"C05": {"verifier/", "consensus/", "pillar/", "chain/momentum/"},
+	"C05": {"verifier/", "consensus/", "pillar/", "chain/momentum/", "wallet/crypto.go", "common/types/pillar"},
 	"C06": {"chain/", "common/db/", "consensus/"},
 	"C07": {"common/db/"},
 	"C08": {"common/db/"},
@@ -332,12 +332,12 @@ var successScope = map[string][]string{
 	"C10": {"vm/embedded/", "vm/vm.go", "vm/supervisor.go"},
 	"C11": {"vm/embedded/implementation/", "vm/constants/", "consensus/"},
 	"C12": {"vm/vm.go", "vm/plasma.go", "vm/supervisor.go", "pow/", "verifier/", "vm/constants/"},
-	"C13": {"vm/vm.go", "vm/supervisor.go", "verifier/", "chain/nom/", "vm/abi/"},
-	"C14": {"chain/"},
-	"C15": {"protocol/", "p2p/"},
-	"C16": {"protocol/", "chain/momentum_pool.go"},
+	"C13": {"vm/vm.go", "vm/supervisor.go", "verifier/", "chain/nom/", "vm/abi/", "wallet/crypto.go", "common/types/", "common/crypto/"},
+	"C14": {"chain/", "protocol/chain_bridge.go"},
+	"C15": {"protocol/", "p2p/", "chain/momentum/", "rpc/server/"},
+	"C16": {"protocol/", "chain/momentum_pool.go", "chain/momentum/", "chain/chain.go", "vm/supervisor.go", "vm/momentum_vm.go", "verifier/momentum.go", "consensus/", "wallet/crypto.go"},
 	"C17": {"vm/embedded/", "chain/momentum/", "common/types/"},
-	"C18": {"rpc/"},
+	"C18": {"rpc/", "chain/nom/", "chain/account/mailbox/", "common/bytes.go", "common/types/", "common/hexutil"},
 	"C19": {"wallet/"},
 	"C20": {"chain/genesis/", "chain/chain.go", "chain/momentum/"},
 }
@@ -347,6 +347,9 @@ func runWithCommon(def *propDef, r *Run) {
 	if sc := successScope[def.ID]; len(sc) > 0 {
 		r.SuccessReturnTable(filePrefix(sc...), "a function hands out, on success, only the result forms it handed out on the reviewed tree: a new one (a memoised value, the configured instead of the stored record, a shortcut result) is a new accepting path")
 		r.MustPassGuardTable(filePrefix(sc...), "the rules of this property pin what the accepting paths check; a new accepting path (fast path, early success) that gets around a guard bypasses them")
+		if def.ID == "C15" || def.ID == "C14" || def.ID == "C18" || def.ID == "C09" {
+			r.ChanMakeTable(filePrefix(sc...), "buffer sizes of the channels created on the network, pool, RPC and producer paths")
+		}
 		r.AllGuardTable(filePrefix(sc...), "every rejection performed on the reviewed tree is still performed")
 		r.PlainBranchTable(filePrefix(sc...), "no new or altered non-rejecting fork")
 		r.MustPassEffectTable(filePrefix(sc...), "and what they do: a new accepting path that skips a state change (record saved, balance moved, marker set, cache purged, nested verification) leaves the ledger half-updated")
@@ -708,6 +711,88 @@ func (r *Run) PlainBranchTable(keep func(tableRow) bool, why string) int {
 	}
 	if n == 0 {
 		r.viol("vacuous-rule", "", "plain branch table", "no table row selected", why, "", 0)
+	}
+	return n
+}
+
+//go:embed tables/chan_makes.json
+var chanMakesJSON []byte
+
+// chanMakes: every channel a function creates, with its element type and buffer size.
+func chanMakes(r *Run, fn *ssa.Function) []string {
+	set := map[string]int{}
+	var visit func(f *ssa.Function)
+	visit = func(f *ssa.Function) {
+		for _, b := range f.Blocks {
+			for _, in := range b.Instrs {
+				if mc, ok := in.(*ssa.MakeChan); ok {
+					set["make("+shortType(mc.Type())+","+r.P.Env(f).of(mc.Size).String()+")"]++
+				}
+			}
+		}
+		for _, a := range f.AnonFuncs {
+			visit(a)
+		}
+	}
+	visit(fn)
+	var out []string
+	for s, k := range set {
+		out = append(out, fmt.Sprintf("%s x%d", s, k))
+	}
+	sort.Strings(out)
+	return out
+}
+
+// ChanMakeTable: the channels the selected functions create keep their buffer sizes. A result or
+// error channel that loses its buffer blocks its sender for ever once the receiver has gone; a
+// queue that loses its bound grows with what peers send.
+func (r *Run) ChanMakeTable(keep func(tableRow) bool, why string) int {
+	var rows []tableRow
+	if err := json.Unmarshal(chanMakesJSON, &rows); err != nil {
+		panic("bad embedded table: " + err.Error())
+	}
+	want := map[string]map[string]bool{}
+	var order []string
+	for _, row := range rows {
+		if !keep(row) {
+			continue
+		}
+		if want[row.F] == nil {
+			want[row.F] = map[string]bool{}
+			order = append(order, row.F)
+		}
+		want[row.F][row.C] = true
+	}
+	n := 0
+	for _, name := range order {
+		fn := r.P.Fn(name)
+		if fn == nil || fn.Blocks == nil {
+			continue
+		}
+		n++
+		file, line := r.P.FnPos(fn)
+		got := map[string]bool{}
+		for _, c := range chanMakes(r, fn) {
+			got[c] = true
+		}
+		var missing, extra []string
+		for c := range want[name] {
+			if !got[c] {
+				missing = append(missing, c)
+			}
+		}
+		for c := range got {
+			if !want[name][c] {
+				extra = append(extra, c)
+			}
+		}
+		sort.Strings(missing)
+		sort.Strings(extra)
+		if len(missing) > 0 && len(extra) > 0 {
+			r.viol("K6-chan-capacity", name, "channels created", fmt.Sprintf("%s creates its channels differently: was %v, now %v", name, missing, extra), why, file, line)
+			continue
+		}
+		r.pass("K6-chan-capacity", name, "channels created", fmt.Sprintf("%d frozen", len(want[name])), why, file, line)
 	}
 	return n
 }
